@@ -55,7 +55,13 @@ func newRBL(options plugintypes.OperatorOptions) (plugintypes.Operator, error) {
 // https://github.com/SpiderLabs/ModSecurity/blob/b66224853b4e9d30e0a44d16b29d5ed3842a6b11/src/operators/rbl.cc
 func (o *rbl) Evaluate(tx plugintypes.TransactionState, ipAddr string) bool {
 	// TODO validate address
-	resC := make(chan bool)
+	// The lookup runs on its own goroutine and may outlive this call: it must not
+	// touch the transaction, and it must be able to deliver its result without a receiver.
+	type result struct {
+		listed bool
+		txt    []string
+	}
+	resC := make(chan result, 1)
 	ctx, cancel := context.WithCancel(context.Background())
 
 	defer func() {
@@ -63,41 +69,33 @@ func (o *rbl) Evaluate(tx plugintypes.TransactionState, ipAddr string) bool {
 	}()
 
 	addr := fmt.Sprintf("%s.%s", ipAddr, o.service)
-	var captures []string
 	go func(ctx context.Context) {
-		defer func() {
-			close(resC)
-		}()
 		res, err := o.resolver.LookupHost(ctx, addr)
 
 		if err != nil {
-			resC <- false
+			resC <- result{}
 			return
 		}
-		// var status string
+		var txt []string
 		if len(res) > 0 {
-			txt, err := o.resolver.LookupTXT(ctx, addr)
+			txt, err = o.resolver.LookupTXT(ctx, addr)
 			if err != nil {
-				resC <- false
+				resC <- result{}
 				return
-			}
-
-			if len(txt) > 0 {
-				status := txt[0]
-				captures = append(captures, status)
-				tx.Variables().TX().Set("httpbl_msg", []string{status})
 			}
 		}
 
-		resC <- true
+		resC <- result{listed: true, txt: txt}
 	}(ctx)
 
 	select {
 	case res := <-resC:
-		if res && len(captures) > 0 {
-			tx.CaptureField(0, captures[0])
+		if len(res.txt) > 0 {
+			status := res.txt[0]
+			tx.Variables().TX().Set("httpbl_msg", []string{status})
+			tx.CaptureField(0, status)
 		}
-		return res
+		return res.listed
 	case <-time.After(timeout):
 		return false
 	}
